@@ -1624,13 +1624,14 @@ theorem setGroupList_spec (m : Mem) (bk bl an : Nat) (gl : List (Nat × List UIn
         .ret (.ptr b' 0) { mem := m', loc := loc' } ∧
       GlMem m' bk bl' gl' ∧ gl'.map (·.2) = Econf.addGroup (gl.map (·.2)) nm ∧ (b', nm) ∈ gl' ∧
       m.length ≤ m'.length ∧ (∀ b, b < m.length → b ≠ bk → b ≠ bl → m'[b]? = m[b]?) ∧
-      (∀ blk, m'[bk]? = some blk → blk.writable = true) ∧ bk ≠ bl' ∧ (∀ e, e ∈ gl' → e.1 ≠ bk ∧ e.1 ≠ bl') ∧ gl'.length ≤ gl.length + 1 := by
+      (∀ blk, m'[bk]? = some blk → blk.writable = true) ∧ bk ≠ bl' ∧ (∀ e, e ∈ gl' → e.1 ≠ bk ∧ e.1 ≠ bl') ∧ gl'.length ≤ gl.length + 1 ∧
+      (bl' = bl ∨ m.length ≤ bl') := by
   have hc := firstN_mem gl nm
   by_cases hlt : firstN gl nm < gl.length
   · obtain ⟨loc', he⟩ := setGroupList_found m bk bl an gl nm h hn (by omega) fuel hf hlt
     have hmem : nm ∈ gl.map (·.2) := hc.1 hlt
     have hcont : (gl.map (·.2)).contains nm = true := by simpa using hmem
-    refine ⟨m, loc', _, bl, gl, he, h, by simp only [Econf.addGroup, hcont, if_true], ?_, Nat.le_refl _, fun _ _ _ _ => rfl, hkw, hne, hd, by omega⟩
+    refine ⟨m, loc', _, bl, gl, he, h, by simp only [Econf.addGroup, hcont, if_true], ?_, Nat.le_refl _, fun _ _ _ _ => rfl, hkw, hne, hd, by omega, Or.inl rfl⟩
     have hat := firstN_at gl nm hlt
     have hx : gl[firstN gl nm] = ((gl[firstN gl nm]).1, nm) := Prod.ext rfl hat
     have := List.getElem_mem hlt
@@ -1644,7 +1645,7 @@ theorem setGroupList_spec (m : Mem) (bk bl an : Nat) (gl : List (Nat × List UIn
     obtain ⟨gblk, g1, _⟩ := h.arr
     have hbl : bl < m.length := (List.getElem?_eq_some_iff.1 g1).1
     refine ⟨m', loc', _, _, _, he, hg, by simp only [Econf.addGroup, hcont, Bool.false_eq_true, if_false, List.map_append, List.map_cons, List.map_nil], by simp,
-      by omega, hfr, ?_, by omega, ?_, by simp⟩
+      by omega, hfr, ?_, by omega, ?_, by simp, Or.inr (Nat.le_refl _)⟩
     · intro blk hb
       obtain ⟨kb', hkb'⟩ : ∃ kb', m'[bk]? = some kb' := ⟨blk, hb⟩
       have := (hkf kblk blk k1 hb).2.1
@@ -1812,9 +1813,11 @@ theorem cpy_file_entry_exec (m : Mem) (bk bl bs os : Nat) (gl : List (Nat × Lis
     ∃ m' loc' bl' gl', exec fuel LeafFns.cpy_file_entry.body { mem := m, loc := [.ptr bk 0, .ptr bs (os : Int), .undef] } =
         .ret (.ptr m.length 0) { mem := m', loc := loc' } ∧
       EntMem m' m.length 0 (Econf.cpyEntry e) [] ∧ m'.loadSlot m.length 6 = .ok (.int 0) ∧
+      (∃ ws, m'[m.length]? = some ({ cells := [], slots := ws } : Block) ∧ ws.length = 7) ∧
       GlMem m' bk bl' gl' ∧ gl'.map (·.2) = Econf.addGroup (gl.map (·.2)) e.group ∧
       (∃ bg, m'.loadSlot m.length 0 = .ok (.ptr bg 0) ∧ (bg, e.group) ∈ gl') ∧
-      (∀ b, b < m.length → b ≠ bk → b ≠ bl → m'[b]? = m[b]?) := by
+      (∀ b, b < m.length → b ≠ bk → b ≠ bl → m'[b]? = m[b]?) ∧ (bl' = bl ∨ m.length ≤ bl') ∧
+      (∀ blk, m'[bk]? = some blk → blk.writable = true) ∧ bk ≠ bl' ∧ (∀ x, x ∈ gl' → x.1 ≠ bk ∧ x.1 ≠ bl') ∧ gl'.length ≤ gl.length + 1 := by
   let L := m.length
   let sl0 : List Val := List.replicate 7 .undef
   let m0 : Mem := m ++ [{ cells := [], slots := sl0 }]
@@ -1838,7 +1841,7 @@ theorem cpy_file_entry_exec (m : Mem) (bk bl bs os : Nat) (gl : List (Nat × Lis
   obtain ⟨bg, eg1, eg2, eg3⟩ := hE0.grp
   have hbgne : bg ≠ bk ∧ bg ≠ bl := by simpa using eg3
   have hkw0 : ∀ blk, m0[bk]? = some blk → blk.writable = true := fun blk hb => hkw blk (by rw [← hm0fr bk hbk]; exact hb)
-  obtain ⟨m1, loc1, b', bl', gl', hsg, hG1, hnames, hmem1, hlen1, hfr1, hkw1, hne1, hd1, hgl'len⟩ :=
+  obtain ⟨m1, loc1, b', bl', gl', hsg, hG1, hnames, hmem1, hlen1, hfr1, hkw1, hne1, hd1, hgl'len, hblor⟩ :=
     setGroupList_spec m0 bk bl bg gl e.group hG0 eg2 hkw0 hne hd hbgne hsmall fuel hf
   have hm0len : m0.length = L + 1 := by simp [m0, L]
   have hm1L : m1[L]? = some { cells := [], slots := sl0 } := by rw [hfr1 L (by omega) (by omega) (by omega)]; exact hm0L
@@ -1977,8 +1980,8 @@ theorem cpy_file_entry_exec (m : Mem) (bk bl bs os : Nat) (gl : List (Nat × Lis
   obtain ⟨o3, n3⟩ := ov v3' e.cb mm4 hcb4 keep4 (fun str => noStr mm4 _ str hL4)
   obtain ⟨o4, n4⟩ := ov v4' e.ca mm5 hca5 (fun b _ hne' => hfr7 b hne') (fun str => noStr mm5 _ str hL5)
   have hg7 : mm7.loadSlot L 0 = .ok (.ptr b' 0) := by simpa using ld 0 _ (by rw [hsl7]; rfl) (by simp)
-  refine ⟨mm7, [.ptr bk 0, .ptr bs (os : Int), .ptr L 0], bl', gl', by simp [exec, evalE, evalL, readPlace, bind, Except.bind, L], ?_, ?_, hG7, hnames,
-    ⟨b', hg7, hmem1⟩, hag7⟩
+  refine ⟨mm7, [.ptr bk 0, .ptr bs (os : Int), .ptr L 0], bl', gl', by simp [exec, evalE, evalL, readPlace, bind, Except.bind, L], ?_, ?_,
+    ⟨sl7, hL7, by rw [hsl7]; rfl⟩, hG7, hnames, ⟨b', hg7, hmem1⟩, hag7, ?_, ?_, hne1, hd1, hgl'len⟩
   · refine ⟨by simp, ⟨b', by simpa using hg7, by rw [cstr_congr (keep1 b' (cstr_lt hb'str) hb'ne)]; simpa [Econf.cpyEntry] using hb'str, by simp⟩,
       ⟨m1'.length, by simpa using ld 1 _ (by rw [hsl7]; rfl) (by simp), by simpa [Econf.cpyEntry] using hkey7, by simp⟩,
       ⟨v2', by simpa using ld 2 _ (by rw [hsl7]; rfl) n2, by simpa [Econf.cpyEntry] using o2, by simp⟩,
@@ -1986,5 +1989,224 @@ theorem cpy_file_entry_exec (m : Mem) (bk bl bs os : Nat) (gl : List (Nat × Lis
       ⟨v4', by simpa using ld 4 _ (by rw [hsl7]; rfl) n4, by simpa [Econf.cpyEntry] using o4, by simp⟩,
       by simpa [Econf.cpyEntry] using ld 5 _ (by rw [hsl7]; rfl) (by simp)⟩
   · simpa using ld 6 _ (by rw [hsl7]; rfl) (by simp)
+  · rcases hblor with h1 | h1
+    · exact Or.inl h1
+    · exact Or.inr (by omega)
+  · intro blk hb
+    have hbk1 : bk < m1.length := by omega
+    rw [keep1 bk hbk1 (by omega)] at hb
+    exact hkw1 blk hb
+
+/-! ## the append step of the merge: `(*fe)[idx] = cpy_file_entry(dest_kf, src)` -/
+
+theorem loadWords_of {m : Mem} {b : Nat} {blk : Block} {o n : Nat} (h1 : m[b]? = some blk) (h2 : blk.live = true) (h3 : o + n ≤ blk.slots.length) :
+    m.loadWords b (o : Int) n = .ok ((blk.slots.drop o).take n) := by
+  have hn : ¬ ((o : Int) < 0) := by omega
+  simp [Mem.loadWords, Mem.block, h1, h2, hn, h3, bind, Except.bind]
+
+theorem storeWords_of {m : Mem} {b : Nat} {blk : Block} {o : Nat} (vs : List Val) (h1 : m[b]? = some blk) (h2 : blk.live = true) (h3 : blk.writable = true)
+    (h4 : o + vs.length ≤ blk.slots.length) :
+    m.storeWords b (o : Int) vs = .ok (m.set b { blk with slots := blk.slots.take o ++ vs ++ blk.slots.drop (o + vs.length) }) := by
+  have hn : ¬ ((o : Int) < 0) := by omega
+  simp [Mem.storeWords, Mem.block, h1, h2, h3, hn, h4, bind, Except.bind]
+
+theorem evalE_sidx (st st2 : St) (B I : Expr) (b : Nat) (o n : Int) (stride : Nat) (r : Val)
+    (hb : evalE B st = .ok (.ptr b o, st)) (hi : evalE I st = .ok (.int n, st2)) (hs : slotAdd st2.mem b o (n * stride) = .ok r) :
+    evalE (.sidx B I stride) st = .ok (r, st2) := by
+  simp only [evalE, hb, hi, bind, Except.bind, hs]
+
+theorem exec_copy_words (fuel : Nat) (D S : Expr) (st st2 st3 : St) (d s : Nat) (od os : Int) (ws : List Val) (m' : Mem)
+    (hd : evalE D st = .ok (.ptr d od, st2)) (hs : evalE S st2 = .ok (.ptr s os, st3))
+    (hl : st3.mem.loadWords s os 7 = .ok ws) (hw : st3.mem.storeWords d od ws = .ok m') :
+    exec fuel (.expr (.call "copy_words" (.cons D (.cons S (.cons (.lit 7 .u64) .nil))))) st = .normal { mem := m', loc := st3.loc } := by
+  simp only [exec, evalE, evalArgs, hd, hs, bind, Except.bind]
+  simp [builtin, hl, hw, bind, Except.bind]
+
+/-- `(*fe)[idx] = cpy_file_entry(dest_kf, src)` – the step all three loops of the merge are built from: when the index is
+    below the capacity of the array the step runs without a fault, the seven words of the model's `cpyEntry src` land at
+    words `7·idx … 7·idx+6` of the array, nothing else in the array changes, the destination's group list becomes `addGroup`,
+    and the blocks of the caller other than the destination's two and the array are untouched. -/
+theorem fe_append_exec (m : Mem) (bk bl cell fa bs os : Nat) (gl : List (Nat × List UInt8)) (e : Econf.Entry)
+    (loc loc2 : List Val) (srcE idxE : Expr) (t a cap : Nat)
+    (hG : GlMem m bk bl gl) (hE : EntMem m bs os e [bk, bl])
+    (hkw : ∀ blk, m[bk]? = some blk → blk.writable = true) (hne : bk ≠ bl) (hd : ∀ x, x ∈ gl → x.1 ≠ bk ∧ x.1 ≠ bl)
+    (hsmall : (gl.length : Int) + 2 < 2147483648) (hline : (e.line : Int) < 18446744073709551616) (fuel : Nat) (hf : gl.length + 1 < fuel)
+    (hl0 : loc[0]? = some (.ptr bk 0)) (hl1 : loc[1]? = some (.ptr cell 0)) (ht : t < loc.length) (ht1 : t ≠ 1)
+    (hsrc : evalE srcE { mem := m, loc := loc } = .ok (.ptr bs (os : Int), { mem := m, loc := loc }))
+    (hidx : ∀ mm, evalE idxE { mem := mm, loc := loc.set t (.ptr m.length 0) } = .ok (.int (a : Int), { mem := mm, loc := loc2 }))
+    (hl2t : loc2[t]? = some (.ptr m.length 0))
+    (cblk : Block) (hc1 : m[cell]? = some cblk) (hc2 : cblk.live = true) (hc3 : cblk.slots[0]? = some (.ptr fa 0)) (hcne : cell ≠ bk ∧ cell ≠ bl)
+    (ablk : Block) (ha1 : m[fa]? = some ablk) (ha2 : ablk.live = true) (ha3 : ablk.writable = true) (ha4 : ablk.slots.length = 7 * cap)
+    (hane : fa ≠ bk ∧ fa ≠ bl) (hacap : a < cap) :
+    ∃ m1 m' bl' gl' ws, exec fuel (.seq (.inl (some (.var t)) .ptr (.cons (.load (.var 0) .ptr) (.cons srcE .nil)) 3 LeafFns.cpy_file_entry.body)
+          (.expr (.call "copy_words" (.cons (.sidx (.load (.slot (.load (.var 1) .ptr) 0) .ptr) idxE 7) (.cons (.load (.var t) .ptr) (.cons (.lit 7 .u64) .nil))))))
+        { mem := m, loc := loc } = .normal { mem := m', loc := loc2 } ∧
+      EntMem m1 m.length 0 (Econf.cpyEntry e) [] ∧ m1[m.length]? = some ({ cells := [], slots := ws } : Block) ∧ ws.length = 7 ∧
+      GlMem m1 bk bl' gl' ∧ gl'.map (·.2) = Econf.addGroup (gl.map (·.2)) e.group ∧
+      (∀ b, b < m.length → b ≠ bk → b ≠ bl → m1[b]? = m[b]?) ∧
+      m' = m1.set fa { ablk with slots := ablk.slots.take (7 * a) ++ ws ++ ablk.slots.drop (7 * a + 7) } ∧
+      (bl' = bl ∨ m.length ≤ bl') ∧ (∀ blk, m1[bk]? = some blk → blk.writable = true) ∧ bk ≠ bl' ∧
+      (∀ x, x ∈ gl' → x.1 ≠ bk ∧ x.1 ≠ bl') ∧ gl'.length ≤ gl.length + 1 := by
+  obtain ⟨m1, loc1, bl', gl', hcp, hEnt, _, ⟨ws, hws, hwl⟩, hG1, hnames, _, hfr, hblor, hkw1, hne1, hd1, hgll⟩ :=
+    cpy_file_entry_exec m bk bl bs os gl e hG hE hkw hne hd hsmall hline fuel hf
+  have hargs : evalArgs (.cons (.load (.var 0) .ptr) (.cons srcE .nil)) { mem := m, loc := loc } =
+      .ok ([.ptr bk 0, .ptr bs (os : Int)], { mem := m, loc := loc }) := by
+    simp [evalArgs, evalE, evalL, readPlace, hl0, hsrc, bind, Except.bind]
+  have hinl := exec_inl_val (fuel := fuel) (nl := 3) (i := t) (dty := .ptr) (v' := .ptr m.length 0) hargs (by simpa using hcp) (by simp [convert]) (by simpa using ht)
+  have hclt : cell < m.length := (List.getElem?_eq_some_iff.1 hc1).1
+  have halt : fa < m.length := (List.getElem?_eq_some_iff.1 ha1).1
+  have hc1' : m1[cell]? = some cblk := by rw [hfr cell hclt hcne.1 hcne.2]; exact hc1
+  have ha1' : m1[fa]? = some ablk := by rw [hfr fa halt hane.1 hane.2]; exact ha1
+  have hld : m1.loadWords m.length 0 7 = .ok ws := by
+    have := loadWords_of (m := m1) (b := m.length) (o := 0) (n := 7) hws rfl (by simp [hwl])
+    simpa [hwl, List.take_of_length_le] using this
+  have hst : m1.storeWords fa ((7 * a : Nat) : Int) ws = .ok (m1.set fa { ablk with slots := ablk.slots.take (7 * a) ++ ws ++ ablk.slots.drop (7 * a + 7) }) := by
+    have := storeWords_of (m := m1) (b := fa) (o := 7 * a) ws ha1' ha2 ha3 (by rw [hwl, ha4]; omega)
+    simpa [hwl] using this
+  refine ⟨m1, _, bl', gl', ws, ?_, hEnt, hws, hwl, hG1, hnames, hfr, rfl, hblor, hkw1, hne1, hd1, hgll⟩
+  rw [exec_seq_normal hinl]
+  have hcl : m1.loadSlot cell 0 = .ok (.ptr fa 0) := by simpa using loadSlot_of (i := 0) hc1' hc2 hc3 (by simp)
+  have hl1' : (loc.set t (.ptr m.length 0))[1]? = some (.ptr cell 0) := by rw [List.getElem?_set_ne ht1]; exact hl1
+  have hsx : slotAdd m1 fa 0 ((a : Int) * 7) = .ok (.ptr fa ((a : Int) * 7)) := by
+    have : (0 : Int) ≤ (a : Int) * 7 ∧ (a : Int) * 7 ≤ (ablk.slots.length : Int) := by rw [ha4]; omega
+    simp [slotAdd, Mem.block, ha1', ha2, this, bind, Except.bind]
+  have hst' : m1.storeWords fa ((a : Int) * 7) ws = .ok (m1.set fa { ablk with slots := ablk.slots.take (7 * a) ++ ws ++ ablk.slots.drop (7 * a + 7) }) := by
+    have e : (((7 * a : Nat)) : Int) = (a : Int) * 7 := by omega
+    rw [← e]; exact hst
+  have hbase : evalE (.load (.slot (.load (.var 1) .ptr) 0) .ptr) { mem := m1, loc := loc.set t (.ptr m.length 0) } =
+      .ok (.ptr fa 0, { mem := m1, loc := loc.set t (.ptr m.length 0) }) := by
+    simp [evalE, evalL, readPlace, hl1', hcl, bind, Except.bind]
+  have hsidx : evalE (.sidx (.load (.slot (.load (.var 1) .ptr) 0) .ptr) idxE 7) { mem := m1, loc := loc.set t (.ptr m.length 0) } =
+      .ok (.ptr fa ((a : Int) * 7), { mem := m1, loc := loc2 }) :=
+    evalE_sidx _ _ _ _ fa 0 (a : Int) 7 _ hbase (hidx m1) (by simpa using hsx)
+  have hlt : evalE (.load (.var t) .ptr) { mem := m1, loc := loc2 } = .ok (.ptr m.length 0, { mem := m1, loc := loc2 }) := by
+    simp [evalE, evalL, readPlace, hl2t, bind, Except.bind]
+  exact exec_copy_words fuel _ _ _ _ _ fa m.length _ 0 ws _ hsidx hlt hld hst'
+
+theorem loadSlot_inv {m : Mem} {b : Nat} {blk : Block} {i : Nat} {v : Val} (h : m.loadSlot b (i : Int) = .ok v) (hb : m[b]? = some blk) :
+    blk.slots[i]? = some v ∧ v ≠ .undef ∧ blk.live = true := by
+  have hn : ¬ ((i : Int) < 0) := by omega
+  simp only [Mem.loadSlot, Mem.block, hb, bind, Except.bind] at h
+  by_cases hl : blk.live = true
+  · simp only [hl, if_true, hn, if_false, Int.toNat_natCast] at h
+    cases hs : blk.slots[i]? with
+    | none => simp [hs] at h
+    | some w =>
+      simp only [hs] at h
+      cases w with
+      | undef => simp at h
+      | int n => simp at h; subst h; simp [hl]
+      | ptr b2 o2 => simp at h; subst h; simp [hl]
+      | null => simp at h; subst h; simp [hl]
+  · simp [hl] at h
+
+/-- the copy, moved word for word into the array (`(*fe)[a] = copy`), is the same entry there -/
+theorem EntMem.moved {m1 : Mem} {L fa a : Nat} {e : Econf.Entry} {ws : List Val} {ablk : Block}
+    (h : EntMem m1 L 0 e []) (hL : m1[L]? = some ({ cells := [], slots := ws } : Block)) (hwl : ws.length = 7)
+    (ha : m1[fa]? = some ablk) (hal : ablk.live = true) (hac : ablk.cells = []) (hlen : 7 * a + 7 ≤ ablk.slots.length) (hne : fa ≠ L) :
+    EntMem (m1.set fa { ablk with slots := ablk.slots.take (7 * a) ++ ws ++ ablk.slots.drop (7 * a + 7) }) fa (7 * a) e [] := by
+  obtain ⟨m', hm'⟩ : ∃ m' : Mem, m' = m1.set fa { ablk with slots := ablk.slots.take (7 * a) ++ ws ++ ablk.slots.drop (7 * a + 7) } := ⟨_, rfl⟩
+  rw [← hm']
+  have hfalt : fa < m1.length := (List.getElem?_eq_some_iff.1 ha).1
+  have hnew : m'[fa]? =
+      some { ablk with slots := ablk.slots.take (7 * a) ++ ws ++ ablk.slots.drop (7 * a + 7) } := by rw [hm']; simp [hfalt]
+  have hother : ∀ b, b ≠ fa → m'[b]? = m1[b]? :=
+    fun b hb => by rw [hm']; exact set_other hb
+  -- the array holds no string
+  have noStr : ∀ str, m1.cstr fa 0 ≠ .ok str := by
+    intro str hc
+    simp [Mem.cstr, Mem.block, ha, hal, hac, cstrFrom, bind, Except.bind] at hc
+  have wordAt : ∀ (k : Nat) (v : Val), k < 7 → m1.loadSlot L ((0 : Nat) + (k : Nat) : Nat) = .ok v →
+      m'.loadSlot fa ((7 * a + k : Nat) : Int) = .ok v := by
+    intro k v hk hl
+    obtain ⟨h1, h2, _⟩ := loadSlot_inv (by simpa using hl) hL
+    have htk : (ablk.slots.take (7 * a)).length = 7 * a := by simp; omega
+    have : (ablk.slots.take (7 * a) ++ ws ++ ablk.slots.drop (7 * a + 7))[7 * a + k]? = some v := by
+      rw [List.append_assoc, List.getElem?_append_right (by omega), htk]
+      have : 7 * a + k - 7 * a = k := by omega
+      rw [this, List.getElem?_append_left (by omega)]
+      simpa using h1
+    exact loadSlot_of hnew hal this h2
+  have strOk : ∀ (b : Nat) (str : List UInt8), m1.cstr b 0 = .ok str →
+      m'.cstr b 0 = .ok str := by
+    intro b str hc
+    have : b ≠ fa := fun hb => noStr str (hb ▸ hc)
+    rw [cstr_congr (hother b this)]; exact hc
+  have optOk : ∀ (v : Val) (so : Option (List UInt8)), OptStr m1 v so →
+      OptStr m' v so := by
+    intro v so hv
+    cases hv with
+    | none => exact .none
+    | some b str hc => exact .some b str (strOk b str hc)
+  obtain ⟨bg, g1, g2, _⟩ := h.grp
+  obtain ⟨bq, k1, k2, _⟩ := h.key
+  obtain ⟨v, v1, v2, _⟩ := h.val
+  obtain ⟨vb, b1, b2, _⟩ := h.cb
+  obtain ⟨va, a1, a2, _⟩ := h.ca
+  refine ⟨by simp, ⟨bg, by simpa using wordAt 0 _ (by omega) (by simpa using g1), strOk _ _ g2, by simp⟩,
+    ⟨bq, by simpa using wordAt 1 _ (by omega) (by simpa using k1), strOk _ _ k2, by simp⟩,
+    ⟨v, by simpa using wordAt 2 _ (by omega) (by simpa using v1), optOk _ _ v2, by simp⟩,
+    ⟨vb, by simpa using wordAt 3 _ (by omega) (by simpa using b1), optOk _ _ b2, by simp⟩,
+    ⟨va, by simpa using wordAt 4 _ (by omega) (by simpa using a1), optOk _ _ a2, by simp⟩,
+    by simpa using wordAt 5 _ (by omega) (by simpa using h.line)⟩
+
+/-- the append step as the loops use it: afterwards the array element `a` is the model's `cpyEntry` of the source, the
+    destination lists the group, and the rest of the caller's memory is as before -/
+theorem C_fe_append (m : Mem) (bk bl cell fa bs os : Nat) (gl : List (Nat × List UInt8)) (e : Econf.Entry)
+    (loc loc2 : List Val) (srcE idxE : Expr) (t a cap : Nat)
+    (hG : GlMem m bk bl gl) (hE : EntMem m bs os e [bk, bl])
+    (hkw : ∀ blk, m[bk]? = some blk → blk.writable = true) (hne : bk ≠ bl) (hd : ∀ x, x ∈ gl → x.1 ≠ bk ∧ x.1 ≠ bl)
+    (hsmall : (gl.length : Int) + 2 < 2147483648) (hline : (e.line : Int) < 18446744073709551616) (fuel : Nat) (hf : gl.length + 1 < fuel)
+    (hl0 : loc[0]? = some (.ptr bk 0)) (hl1 : loc[1]? = some (.ptr cell 0)) (ht : t < loc.length) (ht1 : t ≠ 1)
+    (hsrc : evalE srcE { mem := m, loc := loc } = .ok (.ptr bs (os : Int), { mem := m, loc := loc }))
+    (hidx : ∀ mm, evalE idxE { mem := mm, loc := loc.set t (.ptr m.length 0) } = .ok (.int (a : Int), { mem := mm, loc := loc2 }))
+    (hl2t : loc2[t]? = some (.ptr m.length 0))
+    (cblk : Block) (hc1 : m[cell]? = some cblk) (hc2 : cblk.live = true) (hc3 : cblk.slots[0]? = some (.ptr fa 0)) (hcne : cell ≠ bk ∧ cell ≠ bl)
+    (ablk : Block) (ha1 : m[fa]? = some ablk) (ha2 : ablk.live = true) (ha3 : ablk.writable = true) (ha4 : ablk.slots.length = 7 * cap)
+    (ha5 : ablk.cells = []) (hane : fa ≠ bk ∧ fa ≠ bl) (hacap : a < cap) :
+    ∃ m' bl' gl', exec fuel (.seq (.inl (some (.var t)) .ptr (.cons (.load (.var 0) .ptr) (.cons srcE .nil)) 3 LeafFns.cpy_file_entry.body)
+          (.expr (.call "copy_words" (.cons (.sidx (.load (.slot (.load (.var 1) .ptr) 0) .ptr) idxE 7) (.cons (.load (.var t) .ptr) (.cons (.lit 7 .u64) .nil))))))
+        { mem := m, loc := loc } = .normal { mem := m', loc := loc2 } ∧
+      EntMem m' fa (7 * a) (Econf.cpyEntry e) [] ∧
+      GlMem m' bk bl' gl' ∧ gl'.map (·.2) = Econf.addGroup (gl.map (·.2)) e.group ∧
+      (∀ b, b < m.length → b ≠ bk → b ≠ bl → b ≠ fa → m'[b]? = m[b]?) ∧
+      (∃ ablk', m'[fa]? = some ablk' ∧ ablk'.live = true ∧ ablk'.writable = true ∧ ablk'.cells = [] ∧ ablk'.slots.length = 7 * cap ∧
+        ∀ i, (i < 7 * a ∨ 7 * a + 7 ≤ i) → ablk'.slots[i]? = ablk.slots[i]?) ∧
+      m.length ≤ m'.length := by
+  obtain ⟨m1, m', bl', gl', ws, hex, hEnt, hws, hwl, hG1, hnames, hfr, hm', hblor, hkw1, hne1, hd1, hgll⟩ :=
+    fe_append_exec m bk bl cell fa bs os gl e loc loc2 srcE idxE t a cap hG hE hkw hne hd hsmall hline fuel hf hl0 hl1 ht ht1 hsrc hidx hl2t
+      cblk hc1 hc2 hc3 hcne ablk ha1 ha2 ha3 ha4 hane hacap
+  have halt : fa < m.length := (List.getElem?_eq_some_iff.1 ha1).1
+  have ha1' : m1[fa]? = some ablk := by rw [hfr fa halt hane.1 hane.2]; exact ha1
+  have hLlt : m.length < m1.length := (List.getElem?_eq_some_iff.1 hws).1
+  have hfaL : fa ≠ m.length := by omega
+  have hmoved := EntMem.moved (a := a) hEnt hws hwl ha1' ha2 ha5 (by rw [ha4]; omega) hfaL
+  rw [← hm'] at hmoved
+  have hother : ∀ b, b ≠ fa → m'[b]? = m1[b]? := fun b hb => by rw [hm']; exact set_other hb
+  -- the array holds no string, so nothing the group list points at is the array
+  have noStr : ∀ str, m1.cstr fa 0 ≠ .ok str := by
+    intro str hc
+    simp [Mem.cstr, Mem.block, ha1', ha2, ha5, cstrFrom, bind, Except.bind] at hc
+  have hblfa : bl' ≠ fa := by
+    rcases hblor with h1 | h1
+    · rw [h1]; exact Ne.symm hane.2
+    · omega
+  have hG' : GlMem m' bk bl' gl' := hG1.mono fa (fun b _ hb => hother b hb) (Ne.symm hane.1) hblfa (by
+    intro x hx hh
+    obtain ⟨i, hi, rfl⟩ := List.getElem_of_mem hx
+    obtain ⟨gb, a1, a2, a3, a4⟩ := hG1.arr
+    exact noStr _ (hh ▸ (a4 i hi).2))
+  refine ⟨m', bl', gl', hex, hmoved, hG', hnames, fun b hb h1 h2 h3 => by rw [hother b h3, hfr b hb h1 h2], ?_, by rw [hm']; simp; omega⟩
+  have htk : (ablk.slots.take (7 * a)).length = 7 * a := by simp; omega
+  refine ⟨{ ablk with slots := ablk.slots.take (7 * a) ++ ws ++ ablk.slots.drop (7 * a + 7) }, by rw [hm']; simp [(List.getElem?_eq_some_iff.1 ha1').1],
+    ha2, ha3, ha5, by simp only [List.length_append, htk, hwl, List.length_drop, ha4]; omega, ?_⟩
+  intro i hi
+  rcases hi with hi | hi
+  · show (ablk.slots.take (7 * a) ++ ws ++ ablk.slots.drop (7 * a + 7))[i]? = ablk.slots[i]?
+    rw [List.append_assoc, List.getElem?_append_left (by omega), List.getElem?_take_of_lt hi]
+  · show (ablk.slots.take (7 * a) ++ ws ++ ablk.slots.drop (7 * a + 7))[i]? = ablk.slots[i]?
+    rw [List.getElem?_append_right (by simp only [List.length_append, htk, hwl]; omega)]
+    simp only [List.length_append, htk, hwl, List.getElem?_drop]
+    congr 1; omega
 
 end LeafKf
